@@ -30,6 +30,9 @@ def main():
                 except Exception as exc:     # noqa: BLE001
                     a = b = f'EXC {type(exc).__name__}: {exc}'
                 out[name] = {'t': a, 'repeat_same': a == b}
+            # histories: the ':warm' run (reads before the database changes) must report what the ':cold' one does
+            out['__history__'] = [nm for nm in out if nm.endswith(':warm')
+                                  and out[nm]['t'] != out.get(nm[:-5] + ':cold', {}).get('t')]
             # interference pass: does running item Y first change what item X returns?
             inter = []
             if len(sys.argv) > 3:
